@@ -45,7 +45,7 @@ func verifRestored(t *refTerm, vx *Vaxis, tag string) {
 	zzverif.Assert(t.visible == 1, tag+":cursor-visible")
 	zzverif.Assert(!t.altScreen, tag+":primary-screen")
 	zzverif.Assert(t.keypadApp != 1, tag+":numeric-keypad")
-	zzverif.Assert(t.kittyDepth == 0, tag+":kitty-keyboard-stack-empty")
+	zzverif.Assert(t.kittyDepth == [2]int{} && !t.kittyUnderflow, tag+":kitty-keyboard-stacks-of-both-screens-as-found")
 	zzverif.Assert(verifStyleEq(t.pen, Style{}), tag+":pen-reset-and-link-closed")
 	zzverif.Assert(t.syncDepth == 0, tag+":synchronized-update-balanced")
 	zzverif.Assert(t.shape == int(vx.userCursorStyle), tag+":cursor-shape-restored")
@@ -68,6 +68,7 @@ func VerifC04Session() {
 	vx.chSigWinSz = make(chan os.Signal, 1)
 	vx.caps.kittyKeyboard = zzverif.Bool("cap.kitty")
 	vx.caps.sixels = zzverif.Bool("cap.sixels")
+	vx.caps.kittyGraphics = zzverif.Bool("cap.kittyGraphics")
 	vx.caps.unicodeCore = zzverif.Bool("cap.unicodeCore")
 	vx.caps.explicitWidth = zzverif.Bool("cap.explicitWidth")
 	vx.caps.colorThemeUpdates = zzverif.Bool("cap.colorTheme")
